@@ -56,6 +56,7 @@ def gen_map(rng, tier):
     if case is None:
         return None
     case["order"] = rng.choice(["MinFill", "MinNeighbors", "MinWeight", "WeightedMinFill", None, "explicit"])
+    case["warm"] = rng.random() < .3
     if case["order"] == "explicit":
         n = len(case["nodes"])
         evv = [v for v, _ in case["ev"]]
@@ -79,8 +80,17 @@ def run_map(case, drv):
     evidence = {pn[v]: gen.lab(labels[v][i]) for v, i in case["ev"]}
     tags = dict(order=str(case["order"]), shape=case["shape"], n=len(names), nev=len(case["ev"]))
     try:
-        res = VariableElimination(bn).map_query([pn[v] for v in case["q"]], evidence=evidence or None,
-                                                elimination_order=order, show_progress=False)
+        eng = VariableElimination(bn)
+        if case.get("warm") and case["ev"]:
+            # the engine has answered the same question for other evidence STATES before
+            try:
+                other = {pn[v]: gen.lab(labels[v][(i + 1) % card[v]]) for v, i in case["ev"]}
+                eng.map_query([pn[v] for v in case["q"]], evidence=other, elimination_order=order, show_progress=False)
+                eng.query([pn[v] for v in case["q"]], evidence=other, show_progress=False)
+            except Exception:
+                pass
+        res = eng.map_query([pn[v] for v in case["q"]], evidence=evidence or None,
+                            elimination_order=order, show_progress=False)
     except Exception as e:
         return fail(f"map_query raised {type(e).__name__}: {e}", **tags)
     err = check_assignment(res, case, m, names, card, labels, case["q"])
@@ -110,6 +120,7 @@ def gen_bp(rng, tier):
     for _ in range(20):
         case = c01.gen_query(rng, tier)
         if connected(len(case["nodes"]), case["edges"]) and len(case["nodes"]) >= 2:
+            case["warm"] = rng.random() < .3
             return case
     return None
 
@@ -125,7 +136,14 @@ def run_bp(case, drv):
     evidence = {pn[v]: gen.lab(labels[v][i]) for v, i in case["ev"]}
     tags = dict(shape=case["shape"], n=len(names), nev=len(case["ev"]))
     try:
-        res = BeliefPropagation(bn).map_query([pn[v] for v in case["q"]], evidence=evidence or None, show_progress=False)
+        eng = BeliefPropagation(bn)
+        if case.get("warm") and case["ev"]:
+            try:
+                other = {pn[v]: gen.lab(labels[v][(i + 1) % card[v]]) for v, i in case["ev"]}
+                eng.map_query([pn[v] for v in case["q"]], evidence=other, show_progress=False)
+            except Exception:
+                pass
+        res = eng.map_query([pn[v] for v in case["q"]], evidence=evidence or None, show_progress=False)
     except Exception as e:
         return fail(f"BP.map_query raised {type(e).__name__}: {e}", **tags)
     err = check_assignment(res, case, m, names, card, labels, case["q"])
